@@ -28,7 +28,7 @@ def run(ck):
                        "C05's formula is demanded there, C15's equivariance is not",
                        "penalised objective for means-only MAP: sum_i log p(x_i) - sum_cj r (mu_cj - mu0_cj)^2 / (2 var_cj)"]
     smp = gm.samples(3)
-    smp = rng.sample(smp, 60 if quick else 500)
+    smp = rng.sample(smp, 30 if quick else 300)
     recs = gm.model_run(ck, "mstep-map", smp, ["map"], coverage=not quick)
     ck.exhaustive = True
     devrecs = gm.model_run(ck, "as-implemented:MAP_VAR_PRIOR_MEAN_NOT_SQUARED", smp, ["map"],
